@@ -98,6 +98,14 @@ check("C14", "exploration",
       "Trusts M-field/M-rows and csv.writer for the default dialect's encoding.",
       "stream-growth monitor after every write + writer model + read-back through the real reader", "DESIGN.md 5/C14")
 
+check("C20", "exploration",
+      "Recording field-format and check subclasses (the documented plugin boundary) are registered in the harness process and "
+      "their call log is compared with the sequence the protocol model predicts, over generated CIDs / tables / header / limit / "
+      "three modes / reader, rows() and writer / 1-3 consecutive runs on one CID; the same classes are also loaded from a plugin "
+      "folder by import_plugins and by the command line's --plugins in subprocesses and log to a file.",
+      "Trusts the guard model and M-protocol; 'reset once' is judged as 'at least once before the first row, never later'.",
+      "call-log monitor at the plugin boundary vs protocol model (trace specification)", "DESIGN.md 5/C20")
+
 NOT_YET = "check not built yet in this session; see DESIGN.md section 5 for the planned monitor"
 
 def main():
